@@ -39,6 +39,13 @@ CHECKS = {
    design_ref="DESIGN.md section 6 (C03)",
    note="Reference = the real code on the trivial schedule; a rule that is wrong under every schedule passes (C01's domain). Sampled schedules, not all 6^n.",
    technique="deterministic simulation: seeded per-call interpretation schedules and between-event faults vs. immediate evaluation; Memoize checked against a reference map"),
+ "C07": dict(
+   engine="intern",
+   category="exploration",
+   text="Seeded histories (3-30 events, <=12 live handles, 3 re-allocatable array slots) of construct (under reflect, lazy, normalize, memoize-over-lazy, eager for leaf constructors; ~20 recipes: Variable, Number 1/1.0/True, Tensor over a slot, Binary/Unary/Reduce/Subs/Lambda/Stack/Cat/Delta/Slice, domains, parametrised ops and types), drop, gc(generation), re-allocate a slot (recycled id), pickle round trip, reinterpret under reflect, touch lazy properties, an exception injected at the n-th internal call of a construct, and a collection injected at the n-th executed line of reflect / __getitem__ / OpMeta.__call__ / Memoize.interpret. Each history runs in a fresh fork against a reference map; after every event: I1 no two live interned terms with equal constructor arguments, I2 re-construction returns the identical live object, I3 no stale object (data is the requested array), I5 pickle/reinterpret identity; at the end I4: after dropping everything and collecting, every intern table is back to its size at the start.",
+   design_ref="DESIGN.md section 6 (C07)",
+   note="Equality of arguments = Python equality for hashable atoms, identity for arrays and funsors. A constructor call that raises under an injected collection/exception is an observation. RESTART (new interpreter) is not implemented; parametrised-type caches are exercised but their size is not part of I4.",
+   technique="deterministic simulation: seeded construct/drop/collect/realloc/pickle histories with injected collections and exceptions against a reference intern map"),
  "C17": dict(
    engine="ctxstack",
    category="fault_enumeration",
@@ -78,6 +85,7 @@ def main():
         "engines": [
             {"name": "confluence", "path": "checks/c02.py", "serves_properties": ["C02"], "kind_free_text": "program executor under a rule-dispatch seam; decline/disable faults; fork per run; cross-world comparison"},
             {"name": "confluence+memo", "path": "checks/c03.py", "serves_properties": ["C03"], "kind_free_text": "per-call interpretation scheduler, between-event faults, Memoize model"},
+            {"name": "intern", "path": "checks/c07.py", "serves_properties": ["C07"], "kind_free_text": "history simulator over intern tables with scheduled GC, id recycling, pickle; reference map"},
             {"name": "ctxstack", "path": "checks/c17.py", "serves_properties": ["C17"], "kind_free_text": "stack model + exception injection at internal calls (sys.monitoring)"},
         ],
         "checks": checks,
